@@ -192,11 +192,23 @@ namespace booster {
 		return d->match_size;
 	}
 
+	namespace {
+		// libpcre recurses on the C stack once per iteration of a repeated group: without a limit
+		// a few kilobytes of subject text overflow the stack. Too deep means "no match".
+		int limited_exec(pcre const *re,char const *begin,int size,int options,int *ovec,int ovec_size)
+		{
+			pcre_extra extra = pcre_extra();
+			extra.flags = PCRE_EXTRA_MATCH_LIMIT_RECURSION;
+			extra.match_limit_recursion = 6000;
+			return pcre_exec(re,&extra,begin,size,0,options,ovec,ovec_size);
+		}
+	}
+
 	bool regex::search(char const *begin,char const *end,int /*flags*/) const
 	{
 		if(!d->re)
 			throw regex_error("booster::regex: Empty expression");
-		int res = pcre_exec(d->re,0,begin,end-begin,0,0,0,0);
+		int res = limited_exec(d->re,begin,end-begin,0,0,0);
 		if(res < 0)
 			return false;
 		return true;
@@ -211,7 +223,7 @@ namespace booster {
 		marks.resize(pat_size,std::pair<int,int>(-1,-1));
 
 		std::vector<int> ovec((mark_count()+1)*3,0);
-		int res = pcre_exec(d->re,0,begin,end-begin,0,0,&ovec.front(),ovec.size());
+		int res = limited_exec(d->re,begin,end-begin,0,&ovec.front(),ovec.size());
 		if(res < 0)
 			return false;
 		for(int i=0;i<pat_size && i < res;i++) {
@@ -231,7 +243,7 @@ namespace booster {
 		if(!d->are)
 			throw regex_error("booster::regex: Empty expression");
 		
-		int res = pcre_exec(d->are,0,begin,end-begin,0,PCRE_ANCHORED,0,0);
+		int res = limited_exec(d->are,begin,end-begin,PCRE_ANCHORED,0,0);
 		if(res < 0)
 			return false;
 		return true;
@@ -246,7 +258,7 @@ namespace booster {
 		marks.resize(pat_size,std::pair<int,int>(-1,-1));
 
 		std::vector<int> ovec((mark_count()+1)*3,0);
-		int res = pcre_exec(d->are,0,begin,end-begin,0,PCRE_ANCHORED,&ovec.front(),ovec.size());
+		int res = limited_exec(d->are,begin,end-begin,PCRE_ANCHORED,&ovec.front(),ovec.size());
 		if(res < 0)
 			return false;
 		if(ovec[0]!=0 || ovec[1]!=end-begin)
